@@ -531,7 +531,9 @@ Definition f_parent :=
   Call (seqs [ raise_if_pid_reused_of NOW Self FStat F_GONE F_REUSED None
                  (If (TParam W_ISLOWEST) Ret (Raise (XNSP Self)));
     If (TParam W_ISLOWEST) Ret
-    (seqs [ f_ppid; f_create_time;
+    (seqs [ f_ppid;
+            (* since commit e49a6c9 the age test uses self._ident[1] (no access: the object under test has it) and
+               parent._proc.create_time(monotonic=True) *)
             FocusParent;
             Try (seqs [ new_process Other FStatE;
                         If (TFlag F_NOIDENT) (SetFlag F_PNOIDENT true) (SetFlag F_PNOIDENT false);
@@ -556,9 +558,10 @@ Definition ppid_map_with (hs : list (hpat * prog)) :=
   seqs [ acc KListdir Global FRoot;
          ForNames (Try (bcat Any FStatE) (handlers hs) Collect) ].
 Definition ppid_map := ppid_map_with [(HFnfEsrch, Skip); (HPerm, Skip)].
-(* one child: Process(child); self.create_time() <= child.create_time() *)
+(* one child: Process(child); _start_times(child): self._ident[1] (no access) <= child._proc.create_time(monotonic=True)
+   (commit e49a6c9; before: self.create_time() <= child.create_time()) *)
 Definition child_body :=
-  seqs [ new_process Other FStatE; f_create_time; Call (wrapped_at Other FStatE (bcat Other FStatE)) ].
+  seqs [ new_process Other FStatE; Call (wrapped_at Other FStatE (bcat Other FStatE)) ].
 Definition children_with (check pmap : prog) :=
   Call (seqs [ check; pmap; LoadKids;
                ForNames (Try child_body (handlers [(HNSP, Skip)]) Skip);
